@@ -110,7 +110,7 @@ class Moment:
 
         self._measurement_key_objs: frozenset[cirq.MeasurementKey] | None = None
         self._control_keys: frozenset[cirq.MeasurementKey] | None = None
-        self._tags = tags
+        self._tags = tuple(tags)
 
     @classmethod
     def from_ops(cls, *ops: cirq.Operation, tags: tuple[Hashable, ...] = ()) -> cirq.Moment:
@@ -377,7 +377,9 @@ class Moment:
         if not isinstance(other, type(self)):
             return NotImplemented
 
-        return self is other or self._sorted_operations_() == other._sorted_operations_()
+        return self is other or (
+            self._sorted_operations_() == other._sorted_operations_() and self.tags == other.tags
+        )
 
     def _approx_eq_(self, other: Any, atol: float) -> bool:
         """See `cirq.protocols.SupportsApproximateEquality`."""
@@ -393,7 +395,7 @@ class Moment:
 
     @_compat.cached_method()
     def __hash__(self):
-        return hash((Moment, self._sorted_operations_()))
+        return hash((Moment, self._sorted_operations_(), self.tags))
 
     def __getstate__(self) -> dict[str, Any]:
         # clear cached hash value when pickling, see #6674
